@@ -10,7 +10,26 @@ pub fn eval(p: &Prog) -> (String, Option<String>, bool, u64) {
     let line = show_run(&out, false);
     let answers = match &out {
         RunOut::Answers(a, _) => a,
-        RunOut::Budget(_) => return (line, Some("terminating dfs program exhausted the step budget".into()), true, fuel),
+        RunOut::Budget(a) => {
+            // the step budget ran out: a program with MANY answers is not wrong for that (false alarm of the thorough tier
+            // once empty clauses multiplied the answers) — the delivered prefix must still be the reference's prefix, and
+            // the engine must not keep running after it has delivered every reference answer
+            let got: Vec<String> = a.iter().map(|x| x.show("")).collect();
+            let fail = match ref_answers(p, 12) {
+                Some(want) => {
+                    if got.len() < want.len() && want[..got.len()] == got[..] {
+                        None
+                    } else if got.len() >= want.len() && want[..] == got[..want.len()] {
+                        Some(format!("terminating dfs program exhausted the step budget after delivering all {} reference answers", want.len()))
+                    } else {
+                        let pos = want.iter().zip(got.iter()).position(|(a, b)| a != b).unwrap_or(0);
+                        Some(format!("answer sequence differs from the reference depth-first order at position {} (run cut by the step budget)", pos))
+                    }
+                }
+                None => None,
+            };
+            return (line, fail, true, fuel);
+        }
         RunOut::Panic(s) => return (line, Some(format!("panic at {}", s)), true, fuel),
     };
     let got: Vec<String> = answers.iter().map(|a| a.show("")).collect();
